@@ -11,15 +11,15 @@ CutName(s) == IF FirstSpace(s) = 0 THEN s ELSE SubSeq(s, 1, FirstSpace(s) - 1)
 Kept(mode) == CASE mode = "node" -> {2, 3, 4, 5, 6, 7, 8, 9, 10, 11, 12}
                 [] mode \in {"stable", "unstable", "node_stable"} -> {2, 3, 4, 10, 11, 12}
                 [] mode = "realign" -> {2, 3, 4, 5, 6, 7, 8, 9, 12}
-RecVerdict(mode, a, b) ==
+RecVerdict(mode, a, b, pt) ==
   IF Len(b.cols) # 12 THEN "malformed_line"
   ELSE IF b.cols[1] # CutName(a.cols[1]) THEN "read_name_altered"
   ELSE IF \E k \in Kept(mode) : b.cols[k] # a.cols[k] THEN "mandatory_column_altered"
-  ELSE TagsVerdict(a.opt, b.opt, mode = "realign")
+  ELSE TagsVerdict(a.opt, b.opt, mode = "realign" /\ ~pt)      \* only a record that realign really realigns may gain a cg field
 Verdict(c) ==
   IF c.status # "ok" THEN {"command_failed_" \o c.status}
   ELSE IF \E k \in 1..Len(c.recs) : c.recs[k].missing THEN {"record_missing_in_output"}
-  ELSE {RecVerdict(c.path, c.recs[k].inp, c.recs[k].out) : k \in 1..Len(c.recs)} \ {"ok"}     \* the set of failing clauses
+  ELSE {RecVerdict(c.path, c.recs[k].inp, c.recs[k].out, c.recs[k].pt) : k \in 1..Len(c.recs)} \ {"ok"}     \* the set of failing clauses
 CInit == i = 1 /\ RInit
 CNext == /\ i <= Len(Cases)
          /\ PrintT(<<"VERDICT", Cases[i].id, Verdict(Cases[i])>>)
